@@ -14,7 +14,8 @@ K_NAME = 'K_solve_t (Solver.solve_t_M instantiated with PrimFloat vs BaseModel.s
 RULE = ('scripted models: exhaustive per-pass value sequences of one check variable up to length 3 over a palette that contains 0, tol, '
         'tol-1ulp, tol+1ulp (so |move| hits tol exactly and either side of it) x min_iter in 0..max_iter+1 x max_iter in 0..3 x failures; '
         'random 1-3 check variables (all-vs-any), positive/negative t, offsets in and out of span, hooks that write check values, affine '
-        'contractive/divergent/oscillating passes, solve_period entry, some faulting scripts. Non-trivial = at least 2 passes executed, or '
+        'contractive/divergent/oscillating passes, solve_period entry, some faulting scripts; instance-level lags/leads with the period on '
+        'either side of both feasibility boundaries (all n<=4 x lags,leads<=2 x both spellings of t enumerated). Non-trivial = at least 2 passes executed, or '
         'stop exactly at k=min_iter or k=max_iter, or an exception path; distinct by hash of the whole case.')
 TRUSTED = ['scripted-model subclass harness/scripted.py (same script is the Coq oracle)']
 ASSUMPTIONS = ['_evaluate and the hooks modify only variable values (not status/iterations) — the shape of the model\'s oracles',
@@ -101,6 +102,10 @@ def gen(rng, tier):
         if rng.random() < 0.1:
             c['status'][p] = rng.choice(['.', 'F', 'E', 'S'])
             c['iters'][p] = rng.randint(0, 9)
+        if rng.random() < 0.3:
+            # instance-level lags / leads: p lands on either side of both feasibility boundaries (fix eb62990)
+            c['lags'] = rng.choice([0, 1, 1, 2, p, p + 1, max(p - 1, 0)])
+            c['leads'] = rng.choice([0, 1, 1, 2, n - 1 - p, n - p, max(n - 2 - p, 0)])
         cases.append(c)
     # a few fixed boundary cases that always run first
     fixed = []
@@ -109,6 +114,20 @@ def gen(rng, tier):
             c = sc.base_case(min_iter=mn, max_iter=mx, failures='ignore')
             c['scripts'] = {'1': {'passes': [[['set', 0, lib.fhex(1.0)]], [['set', 0, lib.fhex(1.0)]]]}}
             fixed.append(c)
+    # infeasible periods at both ends, both spellings of t, both entry points, with and without an offset / min>max
+    for n in (1, 2, 3, 4):
+        for lags in (0, 1, 2):
+            for leads in (0, 1, 2):
+                if lags == 0 and leads == 0:
+                    continue
+                for p in range(n):
+                    for t in (p, p - n):
+                        for entry, off, mn in (('solve_t', 0, 0), ('solve_period', 0, 0), ('solve_t', -1, 0), ('solve_t', 1, 0), ('solve_t', 0, 9)):
+                            c = sc.base_case(n=n, t=t, min_iter=mn, max_iter=3, offset=off, failures='ignore')
+                            c['lags'], c['leads'], c['entry'] = lags, leads, entry
+                            c['scripts'] = {str(p): {'before': [['set', 1, lib.fhex(3.0)]],
+                                                     'passes': [[['set', 0, lib.fhex(1.0)]], [['set', 0, lib.fhex(1.0)]]]}}
+                            fixed.append(c)
     return fixed + cases
 
 
@@ -143,6 +162,13 @@ def oracle(case, obs):
     if o['min_iter'] > o['max_iter']:
         if out[:2] != ['raise', 'ValueError'] or not unchanged or obs['log']:
             bad('min_iter>max_iter', 'min_iter > max_iter must raise ValueError before anything changes; got %s, unchanged=%s' % (out, unchanged))
+        return fails
+    if p < case.get('lags', 0) or p >= n - case.get('leads', 0):
+        # no room for the lags before / the leads after the period: rejected (IndexError) with no change, either spelling of t
+        if out[:2] != ['raise', 'IndexError'] or not unchanged or obs['log']:
+            bad('infeasible-period', 'a period without room for the model\'s lags/leads must raise IndexError with no change '
+                '(n=%d, position=%d, lags=%d, leads=%d); got %s, unchanged=%s, hooks/passes run=%s'
+                % (n, p, case.get('lags', 0), case.get('leads', 0), out, unchanged, obs['log']))
         return fails
     vals = [[lib.unhex(x) for x in row] for row in case['vals']]
     if o['offset'] != 0:
@@ -205,6 +231,9 @@ def bucket(case, obs):
     o = case['opts']
     b = []
     b.append('off' if o['offset'] else 'nooff')
+    if case.get('lags', 0) or case.get('leads', 0):
+        p = _pos(case)
+        b.append('lagslead:' + ('infeasible' if (p < case.get('lags', 0) or p >= case['n'] - case.get('leads', 0)) else 'feasible'))
     b.append(o['errors'])
     out = obs['out']
     b.append(out[1] if out[0] == 'raise' else ('solved' if out[1] else 'unsolved:' + obs['status'][_pos(case)]))
@@ -232,6 +261,11 @@ def shrink_candidates(case):
         c = copy.deepcopy(case)
         c['entry'] = 'solve_t'
         yield c
+    for fld in ('lags', 'leads'):
+        if case.get(fld, 0) > 0:
+            c = copy.deepcopy(case)
+            c[fld] -= 1
+            yield c
     for k in ('min_iter', 'max_iter'):
         if case['opts'][k] > 0:
             c = copy.deepcopy(case)
